@@ -11,6 +11,8 @@ import VhostModel.SpecDrv.Vq
 import VhostModel.SpecDrv.Proxy
 import VhostModel.SpecDrv.BeSrv
 import VhostModel.SpecDrv.Gpu
+import VhostModel.SpecDrv.Ring
+import VhostModel.SpecDrv.Worker
 /-! Spec driver: evaluates the property's own rule on a scenario (and, for behavioural families, on
 the observation the implementation produced). Imports nothing generated from /repo. -/
 
@@ -30,6 +32,8 @@ def dispatch (line : String) : String :=
   | "proxy" :: _ => SpecDrv.Proxy.run toks
   | "besrv" :: _ => SpecDrv.BeSrv.run toks
   | "gpu" :: _ => SpecDrv.Gpu.run toks
+  | "ring" :: _ => SpecDrv.Ring.run toks
+  | "worker" :: _ => SpecDrv.Worker.run toks
   | _ => "bad-family"
 
 partial def loop (h : IO.FS.Stream) (out : IO.FS.Stream) : IO Unit := do
